@@ -132,6 +132,18 @@ func (t *runTarget) Evaluate(engine runner.Engine) error {
 		return nil
 	}
 
+	// Mark the target for re-run before running its body. If the process dies while the body is running, or before
+	// the result is recorded, the target's outputs may no longer match its record (an always-run, a forced re-run or
+	// the re-creation of a missing output leaves the record's stamps valid), so the next build must run it again.
+	if _, isSource := t.target.(*sourceFile); !isSource {
+		marked := info
+		marked.Rerun = true
+		if err := proj.saveTargetInfo(label, marked); err != nil {
+			proj.events.TargetFailed(label, err)
+			return err
+		}
+	}
+
 	// Otherwise, evaluate the target.
 	if verifhook.Enabled {
 		verifhook.At("eval.before_body", label.String())
